@@ -2,7 +2,7 @@
     PriorityNonceMempool[int64], with what the implementation returned at every step; [check] re-runs
     the model on the same history and compares step by step. *)
 From Coq Require Import List ZArith Bool String.
-From Paloma Require Import Base.Corr Mempool.PriorityNonce.
+From Paloma Require Import Base.Corr Mempool.PriorityNonce Mempool.PriorityNonceApi.
 From Paloma Require Gen.C19.
 Import ListNotations.
 Open Scope Z_scope.
@@ -17,9 +17,23 @@ Inductive cop :=
     CClass: a type URL of the application's interface registry (or a near-miss), the class the property
     assigns it (harness, from the Go package of the message type), the CheckTx priority used and the
     priority the real GetTxPriority returned for a single-message transaction of it. *)
+Inductive yield := YDone | YPanic | YTx (s n : Z).
+
+(** the whole API under a configuration, with one open iterator advanced one Next() at a time *)
+Inductive acop :=
+| XInsert (signers : list (Z * Z)) (urls : list string) (ante prio : Z) (res : ires)
+| XRemove (s n : Z) (ok : bool)
+| XOpen (y : yield)                       (* Select(..): where the new iterator stands *)
+| XNext (y : yield)                       (* Next() on the open iterator *)
+| XNextSender (s : Z) (r : nres)          (* NextSenderTx *)
+| XIsEmpty (b : bool)                     (* IsEmpty(..) == nil *)
+| XOnReadCalls (k : Z).                   (* how often the OnRead callback has run so far *)
+
+(** rule: 0 = no TxReplacement, 1 = new >= old, 2 = new > old, 3 = never *)
 Inductive case :=
 | CHist (ops : list (cop * Z))
-| CClass (url : string) (cls : option nat) (ante prio : Z).
+| CClass (url : string) (cls : option nat) (ante prio : Z)
+| CApi (max_tx rule : Z) (ops : list (acop * Z)).
 
 Definition opt_nat_eqb (a b : option nat) : bool :=
   match a, b with Some x, Some y => Nat.eqb x y | None, None => true | _, _ => false end.
@@ -44,10 +58,57 @@ Definition cstep (acc : option state) (oc : cop * Z) : option state :=
           let '(st', ok') := remove s n st in if Bool.eqb ok ok' then Some st' else None
       | CSelect out pn =>
           let '(st', (o', pn')) := select_op st in
-          if sn_list_eqb (map tx_sn o') out && Bool.eqb pn pn' then Some st' else None
+          (* the one-Next()-at-a-time iterator iterated to the end is the same sequence *)
+          let '(st2, r2) := it_open st in
+          let '(o2, pn2) := collect (S (List.length out)) st2 r2 in
+          if sn_list_eqb (map tx_sn o') out && Bool.eqb pn pn' && sn_list_eqb o2 out && Bool.eqb pn2 pn then Some st' else None
       end in
     match r with
     | Some st' => if count st' =? cnt then Some st' else None
+    | None => None
+    end
+  end.
+
+Definition ires_eqb (a b : ires) : bool :=
+  match a, b with IOk, IOk | IErrCap, IErrCap | INoop, INoop | IErrRule, IErrRule => true | _, _ => false end.
+Definition nres_eqb (a b : nres) : bool :=
+  match a, b with NNil, NNil | NPanic, NPanic => true | NTx x, NTx y => x =? y | _, _ => false end.
+Definition yield_matches (r : sres) (y : yield) : bool :=
+  match r, y with
+  | SDone, YDone | SPanic, YPanic => true
+  | SAt it, YTx s n => sn_eqb (it_tx it) (s, n)
+  | _, _ => false
+  end.
+Definition rule_of (r : Z) : option (Z -> Z -> bool) :=
+  if r =? 1 then Some (fun o n => o <=? n)
+  else if r =? 2 then Some (fun o n => o <? n)
+  else if r =? 3 then Some (fun _ _ => false)
+  else None.
+
+Definition xstep (c : cfg) (acc : option astate) (oc : acop * Z) : option astate :=
+  match acc with
+  | None => None
+  | Some a =>
+    let '(o, cnt) := oc in
+    let r :=
+      match o with
+      | XInsert signers urls ante prio res =>
+          match signers with
+          | (s, n) :: _ =>
+              if (tx_priority urls ante =? prio) && ires_eqb (snd (insert_cfg c s n prio (a_st a))) res
+              then Some (astep c a (AInsert s n prio)) else None
+          | [] => None
+          end
+      | XRemove s n ok =>
+          if Bool.eqb (snd (remove s n (a_st a))) ok then Some (astep c a (ARemove s n)) else None
+      | XOpen y => let a' := astep c a AOpen in if yield_matches (a_it a') y then Some a' else None
+      | XNext y => let a' := astep c a ANext in if yield_matches (a_it a') y then Some a' else None
+      | XNextSender s r => if nres_eqb (next_sender_tx s (a_st a)) r then Some a else None
+      | XIsEmpty b => if Bool.eqb (is_empty (a_st a)) b then Some a else None
+      | XOnReadCalls k => if (k =? 0) || negb (match Gen.C19.on_read_uses with [] => true | _ => false end) then Some a else None
+      end in
+    match r with
+    | Some a' => if count (a_st a') =? cnt then Some a' else None
     | None => None
     end
   end.
@@ -56,4 +117,5 @@ Definition check (c : case) : bool :=
   match c with
   | CHist ops => match fold_left cstep ops (Some init) with Some _ => true | None => false end
   | CClass url cls ante prio => opt_nat_eqb (tx_class [url]) cls && (tx_priority [url] ante =? prio)
+  | CApi mx rl ops => match fold_left (xstep (mkCfg mx (rule_of rl))) ops (Some ainit) with Some _ => true | None => false end
   end.
